@@ -208,7 +208,7 @@ def check(ctx, rep):
         meth = "encrypt" if "Encrypter" in half else "decrypt"
         mse = ctx.wrap.run(half + "::" + meth)
         if mse is not None:
-            calls = [i for i in mse.term_info.values() if i.get("k") == "call"]
+            calls = [i for i in mse.term_info.values() if i.get("k") == "call" and not (i.get("inlined") and i["name"].split("::")[-1] in ("deref", "deref_mut"))]
             good = len(calls) == 1 and calls[0]["name"] == IC + "::apply" and strip(calls[0]["locargs"][1]) == ("param", 2)
             rep.check(good, "keystream", half + "::" + meth, "delegates", "raw operation = InnerCrypto::apply(data)", "raw operation of %s is not a plain keystream application" % half)
     rep.check(SERVER_ENCRYPT != SERVER_DECRYPT and len(set(v for v in seen.values() if v)) == 2, "direction", "wrath_header", "two-distinct-constants", "the two directions use different constants", "directions share a constant")
